@@ -108,8 +108,10 @@ def fork_call(fn, arg, timeout: float):
     return res
 
 
-def _slot_main(fn, items, wfd, timeout):
+def _slot_main(fn, items, wfd, timeout, slot_init=None, slot_index=0):
     try:
+        if slot_init is not None:
+            slot_init(slot_index)
         for idx, arg in items:
             res = fork_call(fn, arg, timeout)
             data = pickle.dumps((idx, res), protocol=4)
@@ -118,7 +120,7 @@ def _slot_main(fn, items, wfd, timeout):
         os._exit(0)
 
 
-def run_many(fn, args, nslots=16, timeout=120.0, progress=None, wall_budget=None):
+def run_many(fn, args, nslots=16, timeout=120.0, progress=None, wall_budget=None, slot_init=None):
     """Run fn(arg) for every arg, each in its own fork, spread over nslots slot processes (strided assignment).
 
     Returns results in the order of args. If wall_budget (seconds) is given, slots stop starting new runs after it; the
@@ -147,7 +149,7 @@ def run_many(fn, args, nslots=16, timeout=120.0, progress=None, wall_budget=None
             if wall_budget is not None:
                 os.close(stop_w)
                 items = _BudgetIter(items, stop_r)
-            _slot_main(fn, items, wfd, timeout)
+            _slot_main(fn, items, wfd, timeout, slot_init, s)
         os.close(wfd)
         slots.append((rfd, pid))
     if wall_budget is not None:
